@@ -115,3 +115,44 @@ Proof. exact shift_both_rejected. Qed.
 Print Assumptions C09_step_on_both_columns_refuted.
 Example C09_control_step_nonvacuous : table_ends_ok 0.3 0.8 (CTable [(0.3, 2); (0.8, 4)]) = true /\ [(0.3, 2); (0.8, 4)] <> @nil (R * R).
 Proof. split; [|discriminate]. cbn [table_ends_ok last fst]. change (@neqb R RNum) with Reqb. apply andb_true_intro; split; apply Reqb_true; reflexivity. Qed.
+
+(* state derivatives ("body-fixed velocity, Earth position, body rates and attitude"): every row of the table is the central difference,
+   per unit of the step, of the loads in two states that differ from the current one in that single variable - a step along one body axis
+   of the velocity (the Earth-fixed velocity moves by that step turned to the Earth frame), one Earth-fixed coordinate of the position, one
+   body rate, or a small rotation about one body axis with the Earth-fixed velocity, position and rates held (Model/Analyses.v sd_row,
+   sd_row_q; Proofs/StateDerivsP.v) *)
+From MuxV Require Import Proofs.StateDerivsP.
+Theorem C09_state_table : forall (F : ast R -> list R) (s : ast R) i d, qn2 (s_q s) = 1 -> d <> 0 ->
+  sd_row F s SVel i d =
+    central d (F (mk_ast (vadd (s_v s) (quat_inv_trans (s_q s) (vbump (V3 0 0 0) i d))) (s_w s) (s_p s) (s_q s) (s_c s)))
+              (F (mk_ast (vadd (s_v s) (quat_inv_trans (s_q s) (vbump (V3 0 0 0) i (- d)))) (s_w s) (s_p s) (s_q s) (s_c s))) /\
+  sd_row F s SPos i d =
+    central d (F (mk_ast (s_v s) (s_w s) (vbump (s_p s) i d) (s_q s) (s_c s))) (F (mk_ast (s_v s) (s_w s) (vbump (s_p s) i (- d)) (s_q s) (s_c s))) /\
+  sd_row F s SRate i d =
+    central d (F (mk_ast (s_v s) (vbump (s_w s) i d) (s_p s) (s_q s) (s_c s))) (F (mk_ast (s_v s) (vbump (s_w s) i (- d)) (s_p s) (s_q s) (s_c s))) /\
+  sd_row_q F s i d =
+    central d (F (mk_ast (s_v s) (s_w s) (s_p s) (quat_mult (s_q s) (dq_of i d)) (s_c s)))
+              (F (mk_ast (s_v s) (s_w s) (s_p s) (quat_mult (s_q s) (quat_conj (dq_of i d))) (s_c s))).
+Proof.
+  intros F s i d Hq Hd.
+  assert (Hk : 1 / 2 / d = 1 / (2 * d)) by (field; exact Hd).
+  repeat split.
+  - unfold sd_row, sd_args_b. rnum. change (IZR 2) with 2. rewrite vbump_twice.
+    change (of_args (sd_args s SVel i d) (s_c s)) with (sd_state s SVel i d).
+    match goal with |- context [of_args ?a (s_c s)] => change (of_args a (s_c s)) with (sd_state s SVel i (- d)) end.
+    rewrite !sd_vel by exact Hq. apply cdiff_central. exact Hk.
+  - unfold sd_row, sd_args_b. rnum. change (IZR 2) with 2. rewrite vbump_twice.
+    change (of_args (sd_args s SPos i d) (s_c s)) with (sd_state s SPos i d).
+    match goal with |- context [of_args ?a (s_c s)] => change (of_args a (s_c s)) with (sd_state s SPos i (- d)) end.
+    rewrite !sd_pos by exact Hq. apply cdiff_central. exact Hk.
+  - unfold sd_row, sd_args_b. rnum. change (IZR 2) with 2. rewrite vbump_twice.
+    change (of_args (sd_args s SRate i d) (s_c s)) with (sd_state s SRate i d).
+    match goal with |- context [of_args ?a (s_c s)] => change (of_args a (s_c s)) with (sd_state s SRate i (- d)) end.
+    rewrite !sd_rate by exact Hq. apply cdiff_central. exact Hk.
+  - unfold sd_row_q. rnum. change (IZR 2) with 2. rewrite sd_quat_fwd, sd_quat_bwd by exact Hq. apply cdiff_central. exact Hk.
+Qed.
+Print Assumptions C09_state_table.
+(* the attitude of both perturbed states is a unit quaternion again *)
+Theorem C09_state_table_attitudes : forall (s : ast R) i e b, qn2 (s_q s) = 1 -> qn2 (s_q (sd_state_q s i e b)) = 1.
+Proof. intros s i e b H. apply sd_quat_unit. exact H. Qed.
+Print Assumptions C09_state_table_attitudes.
